@@ -18,7 +18,7 @@ FSCFG = [
 JUUID = '5a5a0000-1111-2222-3333-444455556666'
 FRONTENDS = ['e2fsck -fy', 'e2fsck -fy -E journal_only', 'debugfs jr']
 RULE = ('Hypothesis draws a journal: block size 1k/2k/4k, tag format 32/64-bit, checksums none/v1(crc32_be)/v2/v3, async_commit, SAME_UUID or per-tag UUID layouts, starting sequence incl. values next to 2^32, start position anywhere incl. 1-14 blocks before the wrap point, '
-        '1-8 transactions of 1-40 tags over a pool of 200 target blocks (data blocks of a pre-created file and free blocks), several descriptor blocks per transaction, escaped blocks, revoke blocks before/after the descriptors, repeated logging of one block, '
+        '1-8 transactions of 1-40 tags over a pool of 200 target blocks (data blocks of a pre-created file and free blocks), several descriptor blocks per transaction, escaped blocks, revoke blocks before/after the descriptors, 0-7 trailing revoke-only transactions, repeated logging of one block, '
         'and a damage suffix out of %s applied to a drawn transaction. An independent writer lays it into the journal inode or, for the three external-journal configurations, into the journal device; the reference model (scan up to the first transaction that is uncommitted / wrongly sequenced / checksum-invalid; a block keeps the image of the last accepted '
         'transaction that logged it unless revoked by that or a later one) predicts every pool block. Checked on the results of `e2fsck -fy`, `e2fsck -fy -E journal_only` and `debugfs -w -R jr`: pool blocks equal the model, all other pool blocks untouched, journal superblock s_start == 0, '
         'needs_recovery clear, and all front-ends byte-identical on the pool. For checksum damage inside a transaction (descriptor/data/revoke block) jbd2 reports an error; there the oracle is: no pool block may hold anything but its original or a logged image, and never the damaged image. '
@@ -30,11 +30,18 @@ tr = st.fixed_dictionaries(dict(blocks=st.lists(st.tuples(pidx, st.integers(0, 9
                                 split=st.sampled_from([0, 0, 1, 3, 7]), same_uuid=st.booleans()))
 def strategy(env):
     return st.fixed_dictionaries(dict(fs=st.integers(0, len(FSCFG) - 1), fmt64=st.booleans(), csum=st.sampled_from([0, 1, 2, 3, 3]), **{'async': st.booleans()}, seq0=st.sampled_from([1, 2, 77, 1000, 0x7fffffff, 0xfffffffd, 0xffffffff, 0xfffffff0]),
-                                      start_mode=st.integers(0, 1), start=st.integers(0, 5000), seed=st.integers(0, 1 << 20), trans=st.lists(tr, min_size=1, max_size=8), damage=st.integers(0, len(jbd2.DAMAGE) - 1), damage_at=st.integers(0, 7)))
+                                      start_mode=st.integers(0, 1), start=st.integers(0, 5000), seed=st.integers(0, 1 << 20), trans=st.lists(tr, min_size=1, max_size=8), damage=st.integers(0, len(jbd2.DAMAGE) - 1), damage_at=st.integers(0, 7), tail=st.sampled_from([0, 0, 0, 1, 2, 4, 5, 7])))
 
 def envinit(widx):
     env = hyp.img_env(widx, variants=('asan',)); env['base'] = {}
     return env
+
+def with_tail(case):
+    """appends case['tail'] revoke-only transactions (a revoke block and a commit block each, no descriptor): a log that ends with blocks the replay pass reads but that cause no write"""
+    n = case.get('tail', 0)
+    if not n: return case
+    extra = [dict(blocks=[], rev_before=[(case['seed'] + 3 * i) % 12, (case['seed'] + 3 * i + 1) % 200], rev_after=[], split=0, same_uuid=True) for i in range(n)]
+    return dict(case, trans=list(case['trans']) + extra)
 
 def base_image(env, idx):
     """fresh fs with a 160-block file whose data blocks + 40 free blocks form the pool; cached per configuration"""
@@ -73,9 +80,10 @@ def body(case, env):
     img = os.path.join(d, 'c03.img'); shutil.copyfile(base, img)
     jbase = env.get('base_j', {}).get(case['fs']); jimg = None
     if jbase: jimg = os.path.join(d, 'c03.jnl'); shutil.copyfile(jbase, jimg); classes.append('external-journal')
-    try: expected, touched, candidates, poisoned, info = jbd2.write_journal(img, case, pool, ext=jimg)
+    try: expected, touched, candidates, poisoned, info = jbd2.write_journal(img, with_tail(case), pool, ext=jimg)
     except ValueError as e: return (None, fp, False, None, classes + ['skip:writer:' + str(e)[:30]])
     classes.append('damage:' + info['damage'])
+    if case.get('tail'): classes.append('revoke-only-tail:%d' % case['tail'])
     if info['wrapped']: classes.append('wrap-crossed')
     with open(base, 'rb') as f: orig = f.read()
     def blk(buf, n): return buf[n * bs:(n + 1) * bs]
